@@ -17,6 +17,7 @@ CONSTANTS
   XUses <- XUsesS
   XParams = {"x1", "x2"}
   XVals <- XValsS
+  TplKinds = {"composable", "component", "templates"}
   NumParams = {"p1", "p2"}
   StrParams = {"q1", "q2"}
   SupVals = {0, 2, 300}
